@@ -15,7 +15,7 @@ use mqtt_verif::sinkbed::{LimitHow, Op, decode_ops};
 fn for_c08(o: Op) -> Option<Op> {
     Some(match o {
         Op::Send { kind, own_id, .. } if kind != K::Ready => Op::Send { kind, again: false, own_id: own_id % 3 },
-        Op::SendBad { kind, how } if kind != K::Ready => Op::SendBad { kind, how: how % 3 },
+        Op::SendBad { kind, how } if kind != K::Ready => Op::SendBad { kind, how: (how & 3) % 3 | (how >> 2) % 3 << 2 },
         Op::StreamStart { qos, declared, bad } => Op::StreamStart { qos: qos % 2, declared, bad: bad % 4 },
         Op::Chunk { stream, len } => Op::Chunk { stream: stream % 2, len: len % 6 },
         Op::StreamDrop(k) => Op::StreamDrop(k % 2),
@@ -60,7 +60,7 @@ fn for_c05(o: Op) -> Option<Op> {
 fn for_c06(o: Op) -> Option<Op> {
     Some(match o {
         Op::Send { kind, own_id, .. } if !matches!(kind, K::Qos0 | K::Ready) => Op::Send { kind, again: false, own_id: own_id % 4 },
-        Op::SendBad { kind, how } if matches!(kind, K::Qos0 | K::Qos1 | K::Subscribe | K::NoBlock) => Op::SendBad { kind, how: how % 3 },
+        Op::SendBad { kind, how } if matches!(kind, K::Qos0 | K::Qos1 | K::Subscribe | K::NoBlock) => Op::SendBad { kind, how: (how & 3) % 3 | (how >> 2) % 4 << 2 },
         Op::StreamStart { qos, bad, .. } => Op::StreamStart { qos: qos % 2, declared: 3, bad: 1 + bad % 2 },
         Op::Chunk { .. } => Op::Chunk { stream: 0, len: 1 },
         Op::StreamDrop(_) => Op::StreamDrop(0),
